@@ -121,4 +121,11 @@ Fixpoint pmt_lags_by_pid (streams : list (N * N)) (pid : Z) : bool :=
       else pmt_lags_by_pid rest pid
   end.
 
+(* nested module: `Import StreamType` does not bring these names into scope *)
+Module Consts.
+(* ---- exported constants of psi/pmtstreamtype.go, in source order (coverage: notes/coverage.md) ---- *)
+Definition exported_consts : list N :=
+  [Mpeg2VideoH262; Mpeg4Video; Mpeg4VideoH264; Mpeg4VideoH265; Aac; Ac3; Ec3; Scte35; ID3; PrivateContent].
+End Consts.
+
 End StreamType.
